@@ -45,7 +45,7 @@ theorem c02_step (w : Wiring) (hw : w.notifyAfterStopped = true) {s s' : AState}
       simp only [step] at hs
       exact quiescent_accept hs hi.ops hi.wait hi.wf hi.dchan hi.tinv hi.term
   refine ⟨hbad, ?_⟩
-  obtain ⟨hq', hp'⟩ := qinv_step hf hs hi.queue hi.phase
+  obtain ⟨hq', hp'⟩ := qinv02_step hf hs hi.queue hi.phase
   obtain ⟨hd1, hd2⟩ := step_isDone w hs
   refine ⟨?_, ops_step hf hs hi.ops hi.ret hi.queue hi.phase hi.dchan hi.term, ?_, hq', hp',
     grace_step w hs hi.grace, termInv_step w hw hs hi.tinv, doneChan_step hs hi.dchan,
